@@ -3,7 +3,7 @@ use std::io;
 use crate::entity::{serialize_attribute, serialize_cdata, serialize_text};
 use crate::error::Error;
 use crate::id::NameId;
-use crate::output::Normalizer;
+use crate::output::{NoopNormalizer, Normalizer};
 use crate::xotdata::{Node, Xot};
 
 use super::fullname::FullnameSerializer;
@@ -139,7 +139,7 @@ impl<'a, N: Normalizer> XmlSerializer<'a, N> {
                                 self.xot.local_name_str(element.name_id),
                                 serialize_attribute(
                                     self.xot.namespace_str(namespace).into(),
-                                    &self.normalizer
+                                    &NoopNormalizer
                                 )
                             ),
                         });
@@ -232,9 +232,10 @@ impl<'a, N: Normalizer> XmlSerializer<'a, N> {
                         text: "".to_string(),
                     });
                 }
+                // (a namespace URI is a name, not text: escaped, never normalized)
                 let namespace = serialize_attribute(
                     self.xot.namespace_str(*namespace_id).into(),
-                    &self.normalizer,
+                    &NoopNormalizer,
                 );
                 if *prefix_id == self.xot.empty_prefix_id {
                     OutputToken {
